@@ -13,6 +13,8 @@ from harness.refmodel import freeze, same
 S = load()
 
 PROPERTY = "C05"
+LEVEL_TEXT = 'Exploration: generated operand pairs x exhaustive inner loop over 7 operators x 7 operand forms + unary + length-mismatch + table-left forms; every public str/int/float/date method with generated argument tuples. Exact comparison with the Python scalar result.'
+LEVEL_NOTE = 'Operator/operand combinations for which Python itself raises are counted as python_undefined and skipped.'
 DESIGN_REF = "DESIGN.md §5 C05"
 ENGINE = "elementwise"
 TECHNIQUE = "property-based testing: generated operand pairs x exhaustive inner loop over operators and operand forms, oracle = the Python scalar operation per element; broadcast methods enumerated from dir(str/int/float/date) with generated arguments"
